@@ -107,6 +107,8 @@ type runCtx struct {
 	}
 	executed      atomic.Int64 // written by the consumer only
 	errored       atomic.Int32
+	inFailing     atomic.Int32 // error scenario with ErrClose: the failing callback is executing
+	closeStarted  atomic.Bool
 	busy          atomic.Int32
 	overlap       atomic.Int32
 	closeReturned atomic.Bool // stored once by the owner after Close returned
@@ -372,6 +374,15 @@ func runProc(rc *runCtx) (h *history, stuck string) {
 			rc.busy.Store(0)
 			rc.executed.Add(1)
 			if p.Scenario == "error" && n == p.ErrAt {
+				if p.ErrClose {
+					// Close is made to overlap the failing callback: announce, wait (bounded) until the
+					// owner has entered Close, linger a little so that its cancel has happened, then fail
+					rc.inFailing.Store(1)
+					for k := 0; k < 5000 && !rc.closeStarted.Load(); k++ {
+						time.Sleep(20 * time.Microsecond)
+					}
+					time.Sleep(time.Duration(50+mix(p.YieldSeed^uint64(id))%200) * time.Microsecond)
+				}
 				return errBoom
 			}
 			return nil
@@ -402,6 +413,7 @@ func runProc(rc *runCtx) (h *history, stuck string) {
 	closeIt := func() {
 		s := now()
 		h.CloseCall = s
+		rc.closeStarted.Store(true)
 		proc.Close()
 		e := now()
 		h.CloseRet = e
@@ -498,14 +510,16 @@ func runProc(rc *runCtx) (h *history, stuck string) {
 				wg.Wait()
 			}
 			acc := accepted(logs)
-			if !rc.waitFor(func() bool { return rc.executed.Load() >= acc || rc.errored.Load() != 0 }) {
+			if !rc.waitFor(func() bool {
+				return rc.executed.Load() >= acc || rc.errored.Load() != 0 || rc.inFailing.Load() != 0
+			}) {
 				for _, lg := range logs {
 					h.Ops = append(h.Ops, lg.ops...)
 				}
 				return h, fmt.Sprintf("%d items accepted, %d executed, consumer reported waiting %d times: queue does not drain",
 					acc, rc.executed.Load(), rc.parked.Load())
 			}
-			h.Drained = true
+			h.Drained = !(rc.inFailing.Load() != 0 && rc.errored.Load() == 0) // not drained when Close overlaps the failing callback
 			if rc.errored.Load() != 0 && p.PostErr > 0 {
 				// the queue is stopped: later pushes are held (up to the capacity), never executed
 				lg := &producerLog{}
@@ -805,6 +819,7 @@ func genParams(r *rand.Rand, index int) params {
 			p.Scenario = "drain"
 		}
 		p.ErrAt = r.Intn(6)
+		p.ErrClose = p.Scenario == "error" && r.Intn(5) < 2
 		p.PostErr = r.Intn(p.Cap + 3)
 		if p.PostErr > 12 {
 			p.PostErr = 12
